@@ -34,6 +34,9 @@ PROP = [  # (substring of the commit subject, property, what failed before the f
  ('builders.transpose failed on bsr', 'C04', 'builders.transpose on bsr matrices with blocks larger than (1,1) raised ValueError'),
  ('truncated returned counts for integer lil/dok', 'C04', 'builders.transpose returned truncated symmetrised counts for integer lil/dok input'),
  ('2-d reads mishandled negative', 'C05', 'RaggedArray 2-d reads: negative column start, negative steps, out-of-range row bounds, empty selections, multi-dim cells on the equal-length fast path'),
+ ('row writes failed or corrupted data on equal-length', 'C06', 'RaggedArray row writes on equal-length arrays: a[i]=row of another length, a[sel]=rows, object-dtype _data after a row write, augmented assignment on an empty row selection'),
+ ('append of a flat row raised', 'C06', 'RaggedArray.append([x, y]) raised ValueError'),
+ ('rows of an equal-length RaggedArray were copies', 'C06', 'row = a[i]; row[j] = x on an equal-length array left _data stale'),
 ]
 log = subprocess.run(['git', '-C', '/repo', 'log', '--reverse', '--format=%h|%s'], capture_output=True, text=True).stdout.strip().split('\n')
 fixed = []
